@@ -149,6 +149,131 @@ func (l c04VL) Validate() error {
 
 type c04VLTwin []int
 
+// ---------------------------------------------------------------------------
+// Types whose InitDefaults installs exactly ONE value that fails validation
+// (one, so that a traversal path that skips it is not masked by another
+// rejection): the value has to be overridden by the configuration, otherwise
+// Unpack has to fail - whichever other settings the configuration holds.
+
+// c04EL: plain struct with a tag (element type of c04MS).
+type c04EL struct {
+	R int    `config:"r" validate:"min=1"`
+	T string `config:"t"`
+}
+
+type c04ELTwin struct {
+	R int    `config:"r"`
+	T string `config:"t"`
+}
+
+// c04MI: map whose InitDefaults (pointer receiver) inserts an entry the
+// element type's Validate() rejects, next to a valid one.
+type c04MI map[string]c04VI
+
+func (m *c04MI) InitDefaults() { (*m)["dflt"] = -1; (*m)["ok"] = 2 }
+
+type c04MITwin map[string]c04VITwin
+
+func (m *c04MITwin) InitDefaults() { (*m)["dflt"] = -1; (*m)["ok"] = 2 }
+
+// c04MS: map whose InitDefaults (value receiver) inserts a struct entry that
+// breaks the tag of the element struct.
+type c04MS map[string]c04EL
+
+func (m c04MS) InitDefaults() { m["dflt"] = c04EL{R: 0, T: "d"} }
+
+type c04MSTwin map[string]c04ELTwin
+
+func (m c04MSTwin) InitDefaults() { m["dflt"] = c04ELTwin{R: 0, T: "d"} }
+
+// c04MP: map of pointers; InitDefaults inserts a pointer entry that breaks a
+// tag inside the pointee, next to a valid one.
+type c04MP map[string]*c04PV
+
+func (m c04MP) InitDefaults() { m["dflt"] = &c04PV{N: 101}; m["ok"] = &c04PV{N: 1} }
+
+type c04MPTwin map[string]*c04PVTwin
+
+func (m c04MPTwin) InitDefaults() { m["dflt"] = &c04PVTwin{N: 101}; m["ok"] = &c04PVTwin{N: 1} }
+
+// c04DL: struct whose InitDefaults fills a list; the second element is
+// rejected by the element type's Validate().
+type c04DL struct {
+	L []c04VI `config:"l"`
+	N int     `config:"n"`
+}
+
+func (d *c04DL) InitDefaults() { d.L = []c04VI{2, -1} }
+
+type c04DLTwin struct {
+	L []c04VITwin `config:"l"`
+	N int         `config:"n"`
+}
+
+func (d *c04DLTwin) InitDefaults() { d.L = []c04VITwin{2, -1} }
+
+// c04DK: struct whose InitDefaults fills a plain map with an entry rejected by
+// the element type's Validate().
+type c04DK struct {
+	M map[string]c04VI `config:"m"`
+	S string           `config:"s"`
+}
+
+func (d *c04DK) InitDefaults() { d.M = map[string]c04VI{"dflt": -1, "ok": 3} }
+
+type c04DKTwin struct {
+	M map[string]c04VITwin `config:"m"`
+	S string               `config:"s"`
+}
+
+func (d *c04DKTwin) InitDefaults() { d.M = map[string]c04VITwin{"dflt": -1, "ok": 3} }
+
+// c04DP: struct whose InitDefaults installs a pointer to a value rejected by
+// the pointee's Validate().
+type c04DP struct {
+	P *c04VS `config:"p"`
+	N int    `config:"n"`
+}
+
+func (d *c04DP) InitDefaults() { d.P = &c04VS{X: -1, S: "d"} }
+
+type c04DPTwin struct {
+	P *c04VSTwin `config:"p"`
+	N int        `config:"n"`
+}
+
+func (d *c04DPTwin) InitDefaults() { d.P = &c04VSTwin{X: -1, S: "d"} }
+
+// c04DT: struct whose InitDefaults sets a field to a value its tag rejects.
+type c04DT struct {
+	X int    `config:"x" validate:"positive"`
+	Y string `config:"y"`
+}
+
+func (d *c04DT) InitDefaults() { d.X = -3; d.Y = "def" }
+
+type c04DTTwin struct {
+	X int    `config:"x"`
+	Y string `config:"y"`
+}
+
+func (d *c04DTTwin) InitDefaults() { d.X = -3; d.Y = "def" }
+
+// c04NJ: named integer whose InitDefaults value its own Validate() rejects.
+type c04NJ int
+
+func (d *c04NJ) InitDefaults() { *d = -7 }
+func (d c04NJ) Validate() error {
+	if d < 0 {
+		return errors.New("c04NJ: must not be negative")
+	}
+	return nil
+}
+
+type c04NJTwin int
+
+func (d *c04NJTwin) InitDefaults() { *d = -7 }
+
 // catInfo is what the reference oracle knows about a catalogue type: whether
 // it has InitDefaults, and the documented meaning of its Validate() as a
 // predicate over a value of the same shape (real type or twin).
@@ -192,13 +317,13 @@ func register(name string, real, twin interface{}, shape *gen.TD, info catInfo) 
 			f := &shape.Fields[i]
 			if rt.Field(i).Name != f.Name || rt.Field(i).Tag.Get("config") != f.Tag || rt.Field(i).Tag.Get("validate") != f.Validate ||
 				tt.Field(i).Name != f.Name || tt.Field(i).Tag.Get("config") != f.Tag || tt.Field(i).Tag.Get("validate") != "" ||
-				rt.Field(i).Type != f.T.Type() || tt.Field(i).Type != f.T.Type() {
+				rt.Field(i).Type != f.T.Type() || tt.Field(i).Type != twinOf(f.T).Type() {
 				panic("c04: catalogue shape out of date: " + name + "." + f.Name)
 			}
 		}
 	}
 	gen.RegisterCat(name, rt, shape)
-	gen.RegisterCat(name+"_twin", tt, stripShape(shape))
+	gen.RegisterCat(name+"_twin", tt, twinOf(stripShape(shape)))
 	cats["cat:"+name] = info
 	catKinds = append(catKinds, "cat:"+name)
 }
@@ -240,6 +365,31 @@ func init() {
 		}})
 	register("c04_vl", c04VL{}, c04VLTwin{}, &gen.TD{Kind: "slice", Elem: ptd("int")},
 		catInfo{valid: intsNonNegative})
+
+	// InitDefaults installing one invalid value (see above); they refer to the kinds registered before
+	register("c04_el", c04EL{}, c04ELTwin{},
+		&gen.TD{Kind: "struct", Fields: []gen.FD{fd("R", "r", "min=1", ptd("int")), fd("T", "t", "", ptd("string"))}},
+		catInfo{})
+	register("c04_mi", c04MI{}, c04MITwin{}, &gen.TD{Kind: "map", Elem: ptd("cat:c04_vi")},
+		catInfo{initDefaults: true})
+	register("c04_ms", c04MS{}, c04MSTwin{}, &gen.TD{Kind: "map", Elem: ptd("cat:c04_el")},
+		catInfo{initDefaults: true})
+	register("c04_mp", c04MP{}, c04MPTwin{}, &gen.TD{Kind: "map", Elem: &gen.TD{Kind: "ptr", Elem: ptd("cat:c04_pv")}},
+		catInfo{initDefaults: true})
+	register("c04_dl", c04DL{}, c04DLTwin{},
+		&gen.TD{Kind: "struct", Fields: []gen.FD{fd("L", "l", "", &gen.TD{Kind: "slice", Elem: ptd("cat:c04_vi")}), fd("N", "n", "", ptd("int"))}},
+		catInfo{initDefaults: true})
+	register("c04_dk", c04DK{}, c04DKTwin{},
+		&gen.TD{Kind: "struct", Fields: []gen.FD{fd("M", "m", "", &gen.TD{Kind: "map", Elem: ptd("cat:c04_vi")}), fd("S", "s", "", ptd("string"))}},
+		catInfo{initDefaults: true})
+	register("c04_dp", c04DP{}, c04DPTwin{},
+		&gen.TD{Kind: "struct", Fields: []gen.FD{fd("P", "p", "", &gen.TD{Kind: "ptr", Elem: ptd("cat:c04_vs")}), fd("N", "n", "", ptd("int"))}},
+		catInfo{initDefaults: true})
+	register("c04_dt", c04DT{}, c04DTTwin{},
+		&gen.TD{Kind: "struct", Fields: []gen.FD{fd("X", "x", "positive", ptd("int")), fd("Y", "y", "", ptd("string"))}},
+		catInfo{initDefaults: true})
+	register("c04_nj", c04NJ(0), c04NJTwin(0), ptd("int"),
+		catInfo{initDefaults: true, valid: func(v reflect.Value) bool { return v.Int() >= 0 }})
 }
 
 // twinOf returns the descriptor of the twin type: no validate tags, catalogue
